@@ -20,6 +20,13 @@ RULES = [
     (r" \+ ", " - "), (r" - ", " + "), (r"\+= ", "-= "), (r"-= ", "+= "),
     (r"\btrue\b", "false"), (r"\bfalse\b", "true"), (r"\.0\b", ".1"), (r"\.1\b", ".0"),
     (r"\bpos\.0\b", "pos.1"), (r"\bseq\b", "sep"), (r"\bsep\b", "qual"), (r"\bis_none\(\)", "is_some()"), (r"\bis_some\(\)", "is_none()"),
+    (r"^(\s*)self\.[a-z_.0-9]+ (=|\+=|-=) [^;]*;\s*$", r"\1;"),            # drop an assignment to a field
+    (r"^(\s*)[a-z_]+ (\+=|-=) [^;]*;\s*$", r"\1;"),                      # drop an update of a local
+    (r"Ok\(true\)", "Ok(false)"), (r"Ok\(false\)", "Ok(true)"),
+    (r"b'\\n'", "b'\\r'"), (r"b'>'", "b'@'"), (r"b'@'", "b'>'"), (r"b'\+'", "b'-'"), (r"b' '", "b'_'"),
+    (r"if !", "if "), (r"\.first\(\)", ".last()"), (r"\.last\(\)", ".first()"),
+    (r"= 0;", "= 1;"), (r"\bState::Finished\b", "State::Parsing"), (r"\bState::Positioned\b", "State::Parsing"),
+    (r"\.\.=", ".."), (r"\bNone\b", "Some(0)"), (r"\.skip\(1\)", ".skip(0)"), (r"\* 2\b", "* 3"),
 ]
 
 
@@ -44,7 +51,7 @@ def candidates():
                     # not inside a comment / string / generic bracket
                     if "//" in text[:m.start()] or text[:m.start()].count('"') % 2 == 1:
                         continue
-                    new = text[:m.start()] + rep + text[m.end():]
+                    new = text[:m.start()] + m.expand(rep) + text[m.end():]
                     out.append(dict(fn=key, file=rel, line=ln + 1, rule="%s -> %s" % (pat, rep), old=text, new=new))
     return out
 
@@ -65,13 +72,18 @@ def worker(wid, jobs, lock, res_f):
         src = open(os.path.join("/repo", j["file"])).read().split("\n")
         src[j["line"] - 1] = j["new"]
         open(p, "w").write("\n".join(src))
-        r = sh(["cargo", "test", "--offline", "-q"], cwd=wt, env=env, timeout=900)
+        try:
+            r = sh(["timeout", "-k", "5", "600", "cargo", "test", "--offline", "-q"], cwd=wt, env=env)
+        except Exception as e:      # noqa
+            r = subprocess.CompletedProcess([], 1, stdout="error: " + repr(e))
+        if r.returncode == 124:
+            r.stdout += "\ntest result: FAILED (hang)"
         oks = len(re.findall(r"^test result: ok", r.stdout, re.M))
         bad = len(re.findall(r"^test result: FAILED", r.stdout, re.M)) + (1 if "error" in r.stdout and oks < 4 else 0)
         if oks < 4 or bad:
             j["outcome"] = "killed-by-tests" if "could not compile" not in r.stdout else "does-not-compile"
         else:
-            c = sh(["python3", "/verif/vx/check.py", "all", "--repo", wt], env=env, timeout=3000)
+            c = sh(["timeout", "-k", "5", "3000", "python3", "/verif/vx/check.py", "all", "--repo", wt], env=env)
             v = re.findall(r"^VIOLATION property=(C\d+)", c.stdout, re.M)
             u = re.findall(r"^UNDECIDED property=(C\d+)", c.stdout, re.M)
             o = re.findall(r"^OK property=(C\d+)", c.stdout, re.M)
@@ -94,9 +106,18 @@ def main():
     random.shuffle(c)
     # at most 2 mutants per source line, spread over functions
     seen, jobs = {}, []
+    done = set()
+    try:
+        for l in open(os.path.join(OUT, "results.jsonl")):
+            d = json.loads(l)
+            done.add((d["file"], d["line"], d["new"]))
+    except Exception:
+        pass
     for j in c:
         k = (j["file"], j["line"])
-        if seen.get(k, 0) >= 1:
+        if (j["file"], j["line"], j["new"]) in done or j["new"] == j["old"]:
+            continue
+        if seen.get(k, 0) >= 2:
             continue
         seen[k] = seen.get(k, 0) + 1
         jobs.append(j)
